@@ -42,7 +42,8 @@ static double sig(unsigned c, uint64_t i)
   return .45 * sin((double)i * (.0131 + .003 * c)) + .3 * sin((double)i * .41 + c) + .2 * noise;
 }
 
-static double sigs(unsigned c, uint64_t i) { return i < sig_shift? sig(c + 31, i) : sig(c, i - sig_shift); }
+static uint64_t perturb_at = UINT64_MAX; static double perturb_by;   /* op `perturb i d`: input frame i (all channels) is moved by d */
+static double sigs(unsigned c, uint64_t i) { return (i < sig_shift? sig(c + 31, i) : sig(c, i - sig_shift)) + (i == perturb_at? perturb_by : 0); }
 
 static size_t tsize(int t) { return soxr_datatype_size((soxr_datatype_t)t); }
 
@@ -271,7 +272,7 @@ static void do_create(char * * t, int nt)
   rt.flags = kvu(t, nt, "rtflags", 0);
   if (S) soxr_delete(S);
   S = soxr_create(irate, orate, ch, &create_err, &io, &q, &rt);
-  pos = total_out = 0; memset(hash, 0, sizeof(hash)); max_ilen_set = 0; limitN = UINT64_MAX; sig_shift = 0; eoi_style = 0; null_out = 0;
+  pos = total_out = 0; memset(hash, 0, sizeof(hash)); max_ilen_set = 0; limitN = UINT64_MAX; sig_shift = 0; eoi_style = 0; null_out = 0; perturb_at = UINT64_MAX;
   free(win_hash); win_hash = 0;
   if (!S) { printf("< CREATE err %s\n", create_err); return; }
   e = (char *)soxr_engine(S);
@@ -368,6 +369,7 @@ int main(void)
     }
     else if (!strcmp(t[0], "limit") && nt >= 2) limitN = strtoull(t[1], 0, 10);
     else if (!strcmp(t[0], "shift") && nt >= 2) sig_shift = strtoull(t[1], 0, 10);
+    else if (!strcmp(t[0], "perturb") && nt >= 3) { perturb_at = strtoull(t[1], 0, 10); perturb_by = strtod(t[2], 0); }
     else if (!strcmp(t[0], "window") && nt >= 4) {   /* window a n seg: separate checksums of output frames [a, a+n), one per `seg` frames */
       win_a = strtoull(t[1], 0, 10); win_n = strtoull(t[2], 0, 10); win_seg = strtoull(t[3], 0, 10); if (!win_seg) win_seg = 1;
       win_cnt = (size_t)((win_n + win_seg - 1) / win_seg);
